@@ -10,7 +10,7 @@ import json
 import os
 import random
 
-from . import core, inputs, syntax, progs, c14, cli
+from . import core, inputs, syntax, progs, c14, cli, clispec
 
 
 def schedules(check, n, k):
@@ -96,7 +96,13 @@ def run(tier):
     for rnd in range(1 if tier == "quick" else 5):
         for sig, rep in cli.check_cli(check, wpc, files, "7.4", [["-d", "-p", "-e"], ["-pb"]], procs_list=(2, 16), race=True):
             check.violation(sig, rep)
-    check.cov["traces_validated_against_impl"] = len(tasks)
+    # (4) the tool as a concurrent system: Cli.tla model-checked (invariants, termination, anti-vacuity deviations); its behaviours
+    # forced on the real binary through the gates of the hook file (spec -> impl); free-running traced runs linearised by
+    # CliTrace.tla with the addresses of the per-file objects as arguments (impl -> spec)
+    clispec.model_check(check, tier)
+    for sig, rep in clispec.check_pipeline(check, wpc, files, "7.4", tier, rng):
+        check.violation(sig, rep)
+    check.cov["traces_validated_against_impl"] += len(tasks)
     check.assumptions += ["Go race detector (worker built with -race, GORACE=halt_on_error=1)", "gate points: verif hook in Parser.Lex, gating writer under the printer",
                           "schedules are sampled when there are more than the tier's cap"]
     return check.finish({"exhaustive": tier == "thorough" and False,
